@@ -37,7 +37,7 @@ META = dict(
                 "region2slices is constrained for whole-cell boxes only (the property is silent otherwise); bc and other "
                 "metadata are not compared. Trusted: TLC, harness/tlaval.py, the embedding/projection adapter."
                 " A second model, spec/PadOpt.tla (stage PadOpt, harness/padopt.py), covers the np.pad modes and options that are not index maps (constant_values, maximum/minimum/mean/median with stat_length, linear_ramp with end_values) for data and validity, with its own M/R/T channels (notes/PadOpt.md)."),
-    technique="TLA+ lattice model (Lattice.tla, Cells.tla, C07.tla) + TLC exhaustive; spec states replayed into code; code traces validated by TLC (C07Trace.tla)",
+    technique="TLA+ lattice model (Lattice.tla, Cells.tla, C07.tla) + TLC exhaustive; spec states replayed into code; code traces validated by TLC (C07Trace.tla); Apalache on the unbounded 1-d core (C07Core.tla: selection, padding, refinement keep positions)",
     design_ref="DESIGN.md section 7 C07",
 )
 
@@ -728,6 +728,9 @@ def run_traces(ctx, df, ntraces, embs):
 # ------------------------------------------------------------------ run / replay
 def run(ctx):
     df = core.import_library()
+    # the unbounded integer core (spec/C07Core.tla): Apalache discharges the clauses on the lattice of any size
+    from .. import apalache
+    apalache.run_stage(ctx, module="C07Core.tla", obligations=apalache.C07_OBLIGATIONS, claim=apalache.C07_CLAIM)
     embs = embed.for_tier(ctx.tier, ctx.seed)
     r = ctx.model("MC_C07", f"C07_{ctx.tier}.cfg", dump=True)
     if r.ok:
